@@ -445,7 +445,12 @@ class vCategory:
     @staticmethod
     def from_ical(ical):
         ical = to_unicode(ical)
-        out = unescape_char(ical).split(',')
+        # split on the commas that separate the items, not on escaped ones
+        items = re.split(r'(?<!\\)((?:\\\\)*),', ical)
+        out = [
+            unescape_char(items[i] + (items[i + 1] if i + 1 < len(items) else ''))
+            for i in range(0, len(items), 2)
+        ]
         return out
 
     def __eq__(self, other):
